@@ -5,9 +5,13 @@
 package main
 
 import (
+	"bytes"
+	"encoding/json"
 	"flag"
 	"fmt"
+	"io"
 	"os"
+	"os/exec"
 	"sort"
 
 	"verifharness/vh"
@@ -34,6 +38,9 @@ func main() {
 		fmt.Fprintln(os.Stderr, "unknown property; have", ids)
 		os.Exit(2)
 	}
+	if os.Getenv("VERIF_CHILD") == "" && os.Getenv("VERIF_NOCHILD") == "" {
+		os.Exit(superviseChild(*prop, *tier, *seed, *out))
+	}
 	c := vh.NewCtx(*prop, *tier, *seed)
 	if *replay != "" {
 		os.Setenv("VERIF_REPLAY", *replay)
@@ -47,4 +54,51 @@ func main() {
 		f(c)
 	}()
 	c.Finish(*out)
+}
+
+// superviseChild runs the check in a child process. The implementation under test may end the
+// process (log.Fatal, fatal runtime errors such as concurrent map writes); then the child leaves no
+// result file and the parent reports the last case the child announced (vh.Crumb) as the input on
+// which the run died — as a correspondence-stage failure with that concrete case in the replay.
+func superviseChild(prop, tier string, seed uint64, out string) int {
+	crumb := out + ".crumb"
+	os.Remove(crumb)
+	os.Remove(out)
+	cmd := exec.Command(os.Args[0], os.Args[1:]...)
+	cmd.Env = append(os.Environ(), "VERIF_CHILD=1", "VERIF_CRUMB="+crumb)
+	var tail bytes.Buffer
+	cmd.Stdout = os.Stdout
+	cmd.Stderr = io.MultiWriter(os.Stderr, &tail)
+	err := cmd.Run()
+	defer os.Remove(crumb)
+	if _, statErr := os.Stat(out); statErr == nil {
+		if err != nil {
+			return 1
+		}
+		return 0
+	}
+	res := &vh.Result{Property: prop, Tier: tier, Seed: seed, Distribution: map[string]int{}, Extra: map[string]interface{}{}}
+	var last map[string]interface{}
+	if b, e := os.ReadFile(crumb); e == nil {
+		json.Unmarshal(bytes.TrimRight(b, "\x00"), &last)
+	}
+	class := "unknown-case"
+	if last != nil {
+		if s, ok := last["class"].(string); ok {
+			class = s
+		}
+	}
+	t := tail.String()
+	if len(t) > 3000 {
+		t = t[len(t)-3000:]
+	}
+	res.Evaluations = 1
+	res.Rule = "the check process was ended by the implementation before the check finished"
+	res.Samples = []interface{}{last}
+	res.Violations = []vh.Violation{{Stage: "correspondence", Signature: "process-killed:" + class,
+		What:   fmt.Sprintf("the implementation ended the process (log.Fatal / fatal runtime error: %v) while the check executed the case in the replay: %s", err, t),
+		Replay: map[string]interface{}{"last_case": last, "stderr_tail": t}}}
+	b, _ := json.MarshalIndent(res, "", " ")
+	os.WriteFile(out, b, 0o644)
+	return 0
 }
